@@ -429,6 +429,27 @@ class Table:
                 d["src"] = "input"
             else:
                 d["src"] = src[1]
+                # a local buffer: when every appended byte is a constant on this path the append is as good as a literal's
+                n = d["len"]
+                if n is not None and 0 < n <= 16:
+                    el0, fl0 = pe.fields_of(src[2]) if src[2] else (0, ())
+                    vals = []
+                    for k in range(n):
+                        if fl0 or not isinstance(el0, int):
+                            vals = None
+                            break
+                        idx = el0 + k
+                        v = s.mem.get((src[1], (("i", idx),) if idx else ()))
+                        if v is None or not pe.is_const(v):
+                            # the byte just read from the input, copied through the local
+                            if v is not None and v == pe.R("c") and n == 1:
+                                d["src"] = "c"
+                            vals = None
+                            break
+                        vals.append(v[1] % 256)
+                    if vals is not None:
+                        d["src"] = "literal"
+                        d["bytes"] = vals
         else:
             d["src"] = "?"
         return d
